@@ -4,6 +4,7 @@ package main
 
 import (
 	"fmt"
+	"strings"
 	"testing"
 
 	kit "go.amzn.com/lambda/zzverif/verifkit"
@@ -81,6 +82,11 @@ func expectOK(out *kit.Outcome, prop string, tr *Trace, tag string, payload kit.
 	}
 	id := invokedID(tr, tag)
 	want := kit.Summarise(transform(id, trunc(payload.Bytes())))
+	if strings.HasPrefix(ret.Text, "Task timed out") && tr.TimeoutMs > 0 && tr.MaxLagMs > float64(tr.TimeoutMs)/4 {
+		// the whole host process was starved of CPU (loaded machine): a timeout of a healthy invocation says nothing
+		out.Inconclusive = fmt.Sprintf("host starved: wake-up lag %.0f ms with a %d ms function timeout", tr.MaxLagMs, tr.TimeoutMs)
+		return false
+	}
 	if ret.Status != 200 || ret.Body == nil || ret.Body.Sha != want.Sha {
 		out.Violate(prop+"/healthy-invocation-failed", "invocation %s should have succeeded with the runtime's response; caller got %d %q (runtime saw id %q)", tag, ret.Status, clip(ret.Text, 200), id)
 		return false
